@@ -1,6 +1,10 @@
 (* Props/C09.v — Concurrent auto-commit writes lose no updates.
    Only statements, `exact`, and Print Assumptions.  Model: Conc/AutoCommit.v
-   (program order of the code as it is now = current_order = order_fixed). *)
+   (program order of the code as it is now = current_order = order_fixed).
+   A "statement" is an auto-commit write (ndb_execute_write, prepared write statements) or an explicit
+   transaction holding one statement (ndb_begin_write, ndb_txn_query, ndb_txn_commit): both run the four
+   steps lock, snapshot, commit, unlock in this order on the real code (calibrated by the harness and
+   compared in Corr/C09.v). *)
 From Coq Require Import List ZArith.
 From NDB Require Import Conc.Sched Conc.AutoCommit Conc.AutoCommit_proofs.
 Import ListNotations.
